@@ -124,3 +124,30 @@ contract(RL, props=['C19'], name='require-line', blocks_only=True,
              raises={'SystemExit': f'not ver_holds({OPS}, isa_model._isa_version, {VER})'},
              ensures=[f'self._operator_str == {OPS}'],
              modifies=['self._operator_str', 'self._version_obj'], allocates=True)})
+
+# ---- register names are not assembler keywords -------------------------------------------------------------------------
+contract('bespokeasm.assembler.model:AssemblerModel.__init__', name='register-names', props=['C19'], blocks_only=True,
+         blocks={'registers': dict(
+             where='from:for reg in self._registers:1', locals={},
+             requires=[],
+             may_raise={'SystemExit': 'True'},
+             ensures=['forall(lambda r: implies(r in self._registers, not (r in ASSEMBLER_KEYWORD_SET)), types={"r": "str"})'],
+             modifies=[])},
+         loops={'0': dict(idx='i', seq='order',
+                          inv=['forall(lambda j: implies(0 <= j and j < i, not (elems(order)[j] in ASSEMBLER_KEYWORD_SET)))'])})
+
+# ---- every operand set an instruction refers to is declared ------------------------------------------------------------
+OSM_INIT = 'bespokeasm.assembler.model.operand_parser:OperandSetsModel.__init__'
+contract(OSM_INIT, props=['C19'], params={'config': 'cfg', 'operand_set_collection': 'OperandSetCollection'},
+         may_raise={'SystemExit': 'True'},
+         ensures=['self._config is config', 'len(self._operand_sets) == cfg_len(config["list"])',
+                  # accepted only if every listed name is a declared operand set, taken in the listed order
+                  'forall(lambda j: implies(0 <= j and j < len(self._operand_sets), cfg_str(cfg_item(config["list"], j)) in'
+                  ' operand_set_collection.__dict and elems(self._operand_sets)[j] is'
+                  ' mapping(operand_set_collection.__dict)[cfg_str(cfg_item(config["list"], j))]))'],
+         modifies=['self._config', 'self._operand_sets'], allocates=True,
+         loops={'0': dict(idx='i', modifies=['self._operand_sets[*]'],
+                          inv=['len(self._operand_sets) == i', 'i <= cfg_len(config["list"])', 'self._config is config', 'fresh(self._operand_sets)',
+                               'forall(lambda j: implies(0 <= j and j < i, cfg_str(cfg_item(config["list"], j)) in'
+                               ' operand_set_collection.__dict and elems(self._operand_sets)[j] is'
+                               ' mapping(operand_set_collection.__dict)[cfg_str(cfg_item(config["list"], j))]))'])})
